@@ -108,7 +108,11 @@ fn c12_k1_send_through_outage() {
     let (mut c, reach, h) = any_carrier();
     let budget: u8 = kani::any();
     kani::assume(budget <= 2);
-    unsafe { node::TRANSPORT_BUDGET = budget };
+    unsafe {
+        node::TRANSPORT_BUDGET = budget;
+        // another thread (the chain monitor) may flag the outage while the RPC is in flight
+        node::FLAG = Some(Arc::as_ptr(&reach));
+    }
     let t = tx(7);
     let r1 = c.send_transaction(&t);
     let (n_sent, n_tr, last) = unsafe { (node::N_SENT, node::N_TRANSPORT, node::LAST_OUTCOME) };
@@ -139,6 +143,7 @@ fn c12_k1_send_through_outage() {
     assert!(unsafe { node::N_SENT } == n_sent + 2, "C01.memo: memoisation ends with the block");
     assert!(*reach.0.lock().unwrap(), "C12.flag: the flag is up again once the node answered");
     kani::cover!(n_tr == 2, "reach-two-transport-errors");
+    kani::cover!(unsafe { node::N_FLAG_RACES } >= 1, "reach-monitor-flagged-first");
     kani::cover!(n_tr == 0 && matches!(o, Outcome::Rpc(-27)), "reach-already-in-chain");
     std::mem::forget(c);
 }
@@ -152,7 +157,10 @@ fn c12_k1_in_mempool_through_outage() {
     let (c, _reach, _h) = any_carrier();
     let budget: u8 = kani::any();
     kani::assume(budget <= 2);
-    unsafe { node::TRANSPORT_BUDGET = budget };
+    unsafe {
+        node::TRANSPORT_BUDGET = budget;
+        node::FLAG = Some(Arc::as_ptr(&_reach));
+    }
     let id = txid_model(&tx(9));
     let r = c.in_mempool(&id);
     let (n_q, n_tr, last) = unsafe { (node::N_QUERIED, node::N_TRANSPORT, node::LAST_OUTCOME) };
